@@ -389,6 +389,8 @@ def primitive_truth(case, b, view, points, res):
         res["evals"] += len(errs)
         res["counters"]["primitive_truth"] += len(errs)
         for k, v in errs.items():
+            if not np.isfinite(v) or not np.isfinite(sc):
+                continue        # overflow at this random point: nothing to compare
             if not (v <= 1e-9 * (1 + sc)):
                 res["violations"].append({"kind": "primitive-sample-wrong", "mech": "C07|primitive-sample-wrong|" + k,
                                           "detail": "%s: sampled primitive differs from its defining value by %.3g" % (k, v)})
